@@ -216,25 +216,13 @@ func (k mctsCase) run(o *mctsOut) {
 	var evals []string
 	var drawn []int32
 	fuel := -1
-	ambiguous := -1
 	for attempt := 0; attempt < 4; attempt++ {
 		m, pan, msg, evals, drawn, fuel = k.runReal(limit)
 		if fuel >= 0 {
 			break
 		}
-		// deadline passed on its own after len(evals) passes: decided below by the root's proven flag after that many passes
-		ambiguous = len(evals)
-		mc := mcts.NewMonteCarlo(k.cfg(0, time.Hour))
-		mcts.VerifSetSource(mc, k.src())
-		vt := mcts.VerifNewTree(p)
-		for i := 0; i < ambiguous; i++ {
-			vt.Iterate(mc)
-		}
-		if vt.RootProven() == 0 {
-			fuel = ambiguous
-			o.stat("mcts_steps_deadline_passed_early", 1)
-			break
-		}
+		// the deadline passed on its own (loaded machine) before the wanted passes were done: the pass count would depend on
+		// the wall clock, so the run is repeated with a longer limit (the emitted case is a function of the seed alone)
 		o.stat("mcts_steps_retry_longer_limit", 1)
 		limit *= 3
 	}
